@@ -12,7 +12,7 @@
 (* (DL: a literal, so that the accumulator starts as a known constant),     *)
 (* Sacc `a = a + atom`, Gacc `o <-- in1 * a`, Qacc `o <== in1 * a`,        *)
 (* Racc `return a`; DA `var arr[2]`, SAv `arr[a] = atom`, Gidx / Qidx /     *)
-(* Ridx: the same uses with `arr[0] + arr[1]` in place of `a`.             *)
+(* Ridx: the same uses with `arr[0] - arr[1]` in place of `a`.             *)
 (***************************************************************************)
 EXTENDS Integers, Sequences, FiniteSets, TLC, Json
 
